@@ -27,6 +27,12 @@ type BFS struct {
 	Timeout         time.Duration
 	MaxReport       int
 	Quiet           bool
+	// ConfCfg, when set, is a second configuration (the same search over the bound implementation instead of the model
+	// stand-in): the shortest path to every distinct state of depth <= ConfMaxDepth is replayed with it after the search
+	// and must give the same Conf observations; its oracle violations are reported like any other.
+	ConfCfg      interface{}
+	ConfMaxDepth int
+	ConfMax      int
 	// Prune lets the engine drop successor events on the coordinator side (per-path budgets).
 	Prune func(path []string, ev string) bool
 }
@@ -51,6 +57,7 @@ type BFSResult struct {
 	Counters       map[string]int
 	DistinctObs    int
 	DeterminismOK  int
+	ConfReplayed   int
 	Wall           time.Duration
 	HarnessErr     string
 }
@@ -81,6 +88,8 @@ func (b *BFS) Run() *BFSResult {
 	}
 
 	seen := map[string]bool{}
+	var confPaths [][]string
+	var confWant []string
 	obs := map[string]bool{}
 	sigSeen := map[string]bool{}
 	frontier := b.Roots
@@ -212,6 +221,10 @@ func (b *BFS) Run() *BFSResult {
 			}
 			seen[r.Key] = true
 			newStates++
+			if b.ConfCfg != nil && len(path)-baseDepth <= b.ConfMaxDepth && (b.ConfMax == 0 || len(confPaths) < b.ConfMax) {
+				confPaths = append(confPaths, path)
+				confWant = append(confWant, r.Conf)
+			}
 			if len(res.Samples) < 6 && len(path) >= baseDepth+2 || (final && len(res.Samples) < 8) {
 				res.Samples = append(res.Samples, path)
 			}
@@ -240,6 +253,50 @@ func (b *BFS) Run() *BFSResult {
 		}
 		res.DepthCompleted = level
 		frontier = next
+	}
+	if b.ConfCfg != nil && len(confPaths) > 0 {
+		ccfg, _ := json.Marshal(b.ConfCfg)
+		for off := 0; off < len(confPaths); off += 64 * pool.N {
+			if b.Budget > 0 && time.Now().After(deadline.Add(b.Budget/2)) {
+				break
+			}
+			end := off + 64*pool.N
+			if end > len(confPaths) {
+				end = len(confPaths)
+			}
+			reqs := make([]*Request, 0, end-off)
+			for _, p := range confPaths[off:end] {
+				reqs = append(reqs, &Request{Cfg: ccfg, Path: p})
+			}
+			for i, r := range run(reqs) {
+				path := confPaths[off+i]
+				if r.Err != "" || r.Died {
+					res.HarnessErr = fmt.Sprintf("conformance replay of %v failed: %s %s", path, r.Err, tail(r.Log, 2000))
+					return res
+				}
+				res.ConfReplayed++
+				for _, v := range r.Violations {
+					key := v.Oracle + "|" + v.Signature
+					if sigSeen[key] {
+						continue
+					}
+					sigSeen[key] = true
+					if kf := KnownFor(findings, b.Property, v.Signature); kf != nil {
+						fmt.Printf("KNOWN-FINDING: property=%s %s [signature %s; real-node path %s]\n", b.Property, kf.What, v.Signature, strings.Join(path, " "))
+						res.Known = append(res.Known, FoundViolation{Path: path, Violation: v, Known: true})
+						continue
+					}
+					fv := FoundViolation{Path: path, Violation: v}
+					fv.Replay = WriteReplay(&Replay{Property: b.Property, Engine: b.Engine + "/real", Cfg: ccfg, Path: path, Violation: v})
+					res.Violations = append(res.Violations, fv)
+					fmt.Printf("VIOLATION property=%s replay=%s\n  (bound-implementation replay) oracle=%s signature=%s\n  path=%s\n  %s\n", b.Property, fv.Replay, v.Oracle, v.Signature, strings.Join(path, " "), firstLines(v.Detail, 12))
+				}
+				if len(r.Violations) == 0 && r.Conf != confWant[off+i] {
+					res.HarnessErr = fmt.Sprintf("MODEL/IMPLEMENTATION DIVERGENCE on path %v\n--- model stand-in observed\n%s\n--- implementation observed\n%s", path, confWant[off+i], r.Conf)
+					return res
+				}
+			}
+		}
 	}
 	res.DistinctObs = len(obs)
 	res.Wall = time.Since(start)
@@ -276,6 +333,7 @@ func (b *BFS) Finish(res *BFSResult, rule string, assumptions []string, extra ma
 		"states":                        res.States,
 		"transitions":                   res.Transitions,
 		"traces_validated_against_impl": res.Transitions,
+		"model_traces_replayed_on_bound_implementation": res.ConfReplayed,
 		"samples":                       res.Samples,
 		"exhaustive":                    res.Exhaustive,
 		"depth_completed":               res.DepthCompleted,
